@@ -169,6 +169,44 @@ func init() {
 			return "same"
 		})
 	}
+	// xcopyov <dt> <n> <copy|copyto> : two views of one matrix that share exactly their first element
+	// (column 0 and row 0): copying the row into the column is well defined (the shared cell keeps its
+	// value); everything outside the column stays as it was
+	execs["xcopyov"] = func(a []string) string {
+		return guard(func() string {
+			n := atoi(a[1])
+			toks := make([]int, n*n)
+			for i := range toks {
+				toks[i] = i
+			}
+			T := tensor.New(tensor.WithShape(n, n), tensor.WithBacking(backing(a[0], toks)))
+			colV, _ := T.Slice(nil, hsl{0, 1, 0})
+			rowV, _ := T.Slice(hsl{0, 1, 0})
+			col, row := colV.(*tensor.Dense), rowV.(*tensor.Dense)
+			var err error
+			if a[2] == "copy" {
+				err = tensor.Copy(col, row)
+			} else {
+				err = row.CopyTo(col)
+			}
+			if err != nil {
+				return "err"
+			}
+			for i := 0; i < n; i++ {
+				for j := 0; j < n; j++ {
+					want := i*n + j
+					if j == 0 {
+						want = i // old T[0,i]
+					}
+					v, _ := T.At(i, j)
+					if valTok(v) != want {
+						return fmt.Sprintf("differs@%d,%d:%d!=%d", i, j, valTok(v), want)
+					}
+				}
+			}
+			return "same"
+		})
+	}
 	execs["slinto"] = func(a []string) string {
 		return guard(func() string {
 			w := &world{dt: a[0]}
@@ -214,6 +252,13 @@ func init() {
 
 func genXKinds(prop string, emit func(string)) {
 	switch prop {
+	case "C04copy":
+		for _, dt := range []string{"f64", "i", "u8", "str"} {
+			for _, n := range []string{"2", "3", "4"} {
+				emit(fmt.Sprintf("xcopyov %s %s copy", dt, n))
+				emit(fmt.Sprintf("xcopyov %s %s copyto", dt, n))
+			}
+		}
 	case "C04", "C17":
 		for _, dt := range []string{"i", "i8", "i16", "i32", "i64", "u", "u8", "u16", "u32", "u64", "f32", "f64"} {
 			emit("xtomat " + dt)
